@@ -70,3 +70,6 @@ impl FromStr for Rune {
     }
   }
 }
+
+#[cfg(ordinals_ord_verif)]
+pub mod verif_text;
